@@ -52,8 +52,10 @@ func arms(sw *ast.SwitchStmt) (map[string]*ast.CaseClause, *ast.CaseClause, []st
 	return m, def, dups
 }
 
+// tq renders a type with its packages qualified the way canonical forms are (import path, except for the few
+// well-known packages): two packages that share a NAME stay distinguishable.
 func tq(t types.Type) string {
-	return types.TypeString(t, func(p *types.Package) string { return p.Name() })
+	return types.TypeString(t, pkgLabel)
 }
 
 // kinds table ---------------------------------------------------------------
